@@ -524,8 +524,10 @@ pub fn run(case: &Case, ctx: &mut Ctx<'_>) {
         }
         for ev_ in &events {
             if ev_[0] == 0 {
-                let adv = (ev_[1] as u64).wrapping_mul(caf);
-                match cur.checked_add(adv).filter(|x| *x <= mask) {
+                // delta * code_alignment_factor is an address advance: a product that does not
+                // fit 64 bits is past the top of every address space, like a sum that is
+                let adv = (ev_[1] as u64).checked_mul(caf);
+                match adv.and_then(|adv| cur.checked_add(adv)).filter(|x| *x <= mask) {
                     Some(next) => {
                         want.push(format!("row {:#x}..{:#x}", cur, next));
                         cur = next;
